@@ -55,11 +55,29 @@ def run(tier):
         runner = _runner_spec()
     except Exception as e:
         pre_und.append('runner extraction: %s' % e)
-    units = []
-    vs = os.path.join(common.VERIF, 'contracts', 'c09_waittable.vspec')
-    if os.path.exists(vs):
-        units.append(dict(vspec=vs))
-    return vprop.run_verus_property(PROP, tier, units, runner=runner, assumptions=[], samples=[], not_decided=[], pre_undecided=pre_und)
+    units = [dict(vspec=os.path.join(common.VERIF, 'contracts', 'c09_waittable.vspec'))]
+    assumptions = [
+        'keys are object addresses > 1 (0 and 1 are the EMPTY / DELETED markers) - precondition of insert',
+        'ObjectHashMap::remove is never called on a table that was never filled (capacity 0, same epoch): caller-history precondition '
+        '(wakeup_all is reached only after an enqueue; Dora-side guard waiters != 0)',
+        'the collector may rewrite live keys in place (through visit_roots slots) but keeps them distinct and > 1, bumps the epoch when it does, '
+        'and does not run while the wait-list lock is held (cur_epoch() is constant inside one operation)',
+        'usize is 64 bits; an allocation of n table entries that returns has n <= 2^59',
+        'assumed std contracts (trusted_base): vec![d; n].into_boxed_slice(), mem::replace, MaybeUninit placeholders (SOME value), Default::default() of the entry (key = null)',
+        'visit_roots (raw pointers + FnMut) is not under contract; the replay runner drives it to emulate a moving collection',
+        'mutual exclusion, lost wake-ups, joins, thread queues (DoraThreadPtr lists), and atomics of the generated code are NOT decided here: interleavings are outside this technique',
+    ]
+    samples = [
+        dict(invariant='wf', statement='capacity = |data| is 0 or a power of two >= 8; entries / deleted count the live / tombstone slots; entries + deleted <= 3/4 capacity '
+             '(so an EMPTY slot always exists and every probe loop terminates); live keys are unique; unless the GC epoch changed, no EMPTY slot lies between a key\'s home slot and its slot'),
+        dict(function='ObjectHashMap::insert', contract='requires wf && key > 1; ensures wf, domain\' = domain + {key}, value of key = value, all other keys keep their values; terminates (mutual recursion with rehash bounded)'),
+        dict(function='ObjectHashMap::get', contract='requires wf; ensures wf, same abstract map, result = lookup(key); rehashes first if the collector moved objects'),
+        dict(function='ObjectHashMap::remove', contract='ensures domain\' = domain - {key}, result = old value, other keys untouched'),
+        dict(function='ObjectHashMap::rehash', contract='requires only the GC-stable part of wf; ensures wf, same abstract map, no tombstones, epoch current'),
+    ]
+    not_decided = ['mutual exclusion / no lost wake-up / join semantics in every interleaving', 'WaitLists::{block, wakeup, wakeup_all} and the per-key thread queues',
+                   'atomic RMW instruction selection of the baseline generator (planned Kani unit)', 'the optimizing generator, arm64']
+    return vprop.run_verus_property(PROP, tier, units, runner=runner, assumptions=assumptions, samples=samples, not_decided=not_decided, pre_undecided=pre_und)
 
 
 def replay(rp):
